@@ -450,6 +450,17 @@ def run_check(prop, tier, seed):
   # may well trip the model elsewhere too), and it is reported.
   if too_many_run_errors and not reported:
     harness_errors.extend(run_errors)
+  # A check that compared (almost) nothing must not say "held": runs are
+  # skipped, by design, when the tree under test refuses what the harness
+  # needs (constructions, references, snapshots) -- if that is most of them,
+  # the harness does not fit this tree.
+  if not reported and not known_lines:
+    for bid, a in sorted(agg.items()):
+      if a['runs'] >= 20 and a['compared'] * 2 < a['runs']:
+        harness_errors.append(
+            'VACUOUS: batch %s compared %d answers in %d runs (skipped: %s)' %
+            (bid, a['compared'], a['runs'],
+             json.dumps(a['skipped'], sort_keys=True)[:300]))
   # ---- evidence -----------------------------------------------------------
   wall = time.time() - t0
   evidence = build_evidence(prop, tier, seed, spec, agg, wall, len(violations),
